@@ -383,6 +383,23 @@ def desugar_for_each_sync(toks, audit, item):
     return toks[:r0 + 1] + [('ws', '\n\t\t\t')] + lex(repl) + toks[pclose + 1:]
 
 
+def abstract_callback(toks, method, repl, audit, item):
+    """R12: `<recv>.<method>(|args| BLOCK)` -> `<recv>.<method>(<repl>)`: the closure literal passed to a collaborator that is a stand-in
+    anyway becomes an opaque value (what the callback computes is then outside the contract; the call itself stays)"""
+    hits = find_token_seq(toks, ['.', method, '('])
+    if len(hits) != 1:
+        raise ExtractError(f"ANCHOR-LOST {item}: {len(hits)} calls of {method} (one expected)")
+    a, e = hits[0]
+    pclose = match_close(toks, e)
+    j = next_sig(toks, e + 1)
+    if toks[j][1] == 'move':
+        j = next_sig(toks, j + 1)
+    if toks[j][1] not in ('|', '||'):
+        raise ExtractError(f"unsupported construct {item}: argument of {method} is not a closure literal")
+    audit.add('R12', f'closure argument of {method} -> {repl}', text(toks[e + 1:pclose])[:400], item)
+    return toks[:e + 1] + lex(repl) + toks[pclose:]
+
+
 def _next_n_sig(toks, i, n):
     res = []
     j = i
@@ -920,6 +937,12 @@ def extract_item(kind, kv, sections, unit_rewrites, extra_drop, audit, verus):
     t = lex(text(t))
     if kv.get('foreach'):
         t = lex(text(desugar_for_each_sync(t, audit, item)))
+    for d, arg, body in sections:
+        if d == 'callback':
+            mm = ARROW.match(arg)
+            if not mm:
+                raise ExtractError(f"bad //@callback in {item}")
+            t = lex(text(abstract_callback(t, unq(mm.group(1)), unq(mm.group(2)), audit, item)))
     t = rewrite_macros(t, audit, item, extra_drop)
     t = lex(text(t))
     t = rewrite_result(t, audit, item)
@@ -964,7 +987,7 @@ def extract_item(kind, kv, sections, unit_rewrites, extra_drop, audit, verus):
         elif d == 'closure':
             mm = re.match(r'^"((?:[^"\\]|\\.)*)"', arg)
             closures.append((unq(mm.group(1)), btxt.strip()))
-        elif d == 'prerewrite':
+        elif d in ('prerewrite', 'callback'):
             pass
         elif d == 'verus-only' or d == 'note':
             pass
